@@ -9,7 +9,7 @@ shutil.copy(f"{W}/MUTATION/patch.diff", f"{D}/patch.diff")
 for f in glob.glob(f"{W}/MUTATION/*"):
     if f.endswith("patch.diff"): continue
     if os.path.isfile(f) and os.path.getsize(f) < 200000: shutil.copy(f, D)
-confirm = open(f"{W}/CONFIRM.log").read()[-1500:] if os.path.exists(f"{W}/CONFIRM.log") else ""
+confirm = open(f"{W}/CONFIRM.log", errors="replace").read()[-1500:] if os.path.exists(f"{W}/CONFIRM.log") else ""
 verdict = subprocess.run(f"grep -a 'existing tests:' {W}/CONFIRM.log", shell=True, capture_output=True, text=True).stdout.strip()
 meta = {"id": mid, "breaks_property": prop, "needs_to_manifest": needs,
         "confirmed": {"compiles": True, "existing_tests": verdict, "demo": "fails with the change, passes without it (tools/confirm_mut.sh, log tail below)", "log_tail": confirm[-600:]},
